@@ -402,3 +402,87 @@ SPECS["C09"] = dict(
     trusted_base=["abstract Pipe as specification of OwningIovec (tied by C03/C04)"],
     assumptions=["64-bit usize"],
 )
+
+# ---- track abt: AtomicBaseTime (C13, C18) -----------------------------------------------------------
+_ABT_TRUST = ("Partial by nature: the theorems are about two memory-model MACHINES (sequentially consistent interleaving; a "
+              "release/acquire view machine with per-location message lists and per-thread views) running hand-written thread "
+              "programs; that the view machine renders the Rust/C++20 memory model for this access pattern, and that one atomic "
+              "access = one step, are trusted. The programs are tied to /repo by hook H3: every access of the real "
+              "snapshot/update/try_update/get_base_time_unlocked (location, kind, ORDERING, value stored, retry rule, lock "
+              "operations) is compared with the model's trace for every control path (trace validation), whole executions "
+              "(schedules x reads-from from the harness's own RA simulator) are replayed step by step on the Lean machines, and a "
+              "bounded exhaustive schedule x reads-from search on the real functions looks for a failing execution (used only to "
+              "find inputs, never as proof). Sequence-counter wrap-around after 2^64 updates is excluded (seq is a Nat).")
+
+SPECS["C13"] = dict(
+    title="AtomicBaseTime snapshots are never torn and never go backwards, on any schedule",
+    lean_modules=["Woodpile.Props.C13"],
+    theorems=[
+        "Woodpile.Props.C13.sc_invariant",
+        "Woodpile.Props.C13.sc_hist_is_accepted_updates",
+        "Woodpile.Props.C13.sc_snapshot_not_torn",
+        "Woodpile.Props.C13.sc_snapshot_in_history",
+        "Woodpile.Props.C13.sc_no_panic",
+        "Woodpile.Props.C13.sc_history_valid",
+        "Woodpile.Props.C13.sc_recent",
+        "Woodpile.Props.C13.sc_per_thread_monotone",
+        "Woodpile.Props.C13.sc_published_monotone",
+        "Woodpile.Props.C13.sc_stale_update_ignored",
+        "Woodpile.Props.C13.ra_invariant",
+        "Woodpile.Props.C13.ra_hist_is_accepted_updates",
+        "Woodpile.Props.C13.ra_snapshot_not_torn",
+        "Woodpile.Props.C13.ra_snapshot_in_history",
+        "Woodpile.Props.C13.ra_no_panic",
+        "Woodpile.Props.C13.ra_history_valid",
+        "Woodpile.Props.C13.ra_start_records_view",
+        "Woodpile.Props.C13.ra_recent",
+        "Woodpile.Props.C13.ra_per_thread_monotone",
+        "Woodpile.Props.C13.ra_published_monotone",
+        "Woodpile.Props.C13.ra_stale_update_ignored",
+    ],
+    families=[dict(name="abt", quick=1500, thorough=60000)],
+    vtags=["C13"],
+    technique="Lean 4 proof (inductive invariant over all schedules / reads-from choices of an SC machine and a release/acquire "
+              "view machine, any number of threads and operations) + H3 trace validation of the real functions + bounded RA exploration oracle",
+    design_ref="DESIGN.md section 5 C13, section 3.5 (H3), appendix A.3",
+    level_text=("Kernel-checked theorems about Lean small-step models of AtomicBaseTime::{snapshot, update, try_update, advance_once} "
+                "(one atomic access or lock operation per step, with the code's locations and orderings) on a sequentially consistent "
+                "machine and on a release/acquire view machine, for every schedule, every reads-from choice, any number of threads and "
+                "operations: inductive invariant, snapshots never torn / always a published pair or the epoch pair / never panic / at "
+                "least as recent as every update that happened-before the snapshot began, per-thread monotone, stale updates ignored."),
+    level_note=_ABT_TRUST,
+    trusted_base=["the release/acquire view machine as a rendering of the Rust memory model for the orderings used (DESIGN.md section 8)",
+                  "hook H3 (verif_shim) reports every access of atomic_base_time.rs faithfully; std::sync::Mutex provides mutual exclusion and release/acquire transfer"],
+    assumptions=["sequence counter does not wrap (fewer than 2^64 accepted updates)", "64-bit usize"],
+)
+
+SPECS["C18"] = dict(
+    title="AtomicBaseTime readers and try_update never wait for a writer",
+    lean_modules=["Woodpile.Props.C18"],
+    theorems=[
+        "Woodpile.Props.C18.snapshot_no_lock",
+        "Woodpile.Props.C18.sc_only_update_lock_blocks",
+        "Woodpile.Props.C18.sc_try_update_nonblocking",
+        "Woodpile.Props.C18.try_update_bounded",
+        "Woodpile.Props.C18.sc_solo_snapshot_terminates",
+        "Woodpile.Props.C18.sc_retry_only_on_publish",
+        "Woodpile.Props.C18.ra_only_update_lock_blocks",
+        "Woodpile.Props.C18.ra_try_update_nonblocking",
+        "Woodpile.Props.C18.ra_solo_snapshot_terminates",
+        "Woodpile.Props.C18.ra_retry_only_on_publish",
+        "Woodpile.Props.C18.unlocked_inherits",
+    ],
+    families=[dict(name="abt", quick=1500, thorough=60000)],
+    vtags=["C18"],
+    technique="Lean 4 proof (termination measure for a reader run alone from any reachable state of the SC / release-acquire "
+              "machines with writers frozen anywhere) + H3 trace validation + suspension-point enumeration on the real functions",
+    design_ref="DESIGN.md section 5 C18, section 3.5 (H3), appendix A.3",
+    level_text=("Kernel-checked theorems about the same models as C13: the snapshot program contains no lock operation and no store; "
+                "from any reachable state, with every other thread frozen anywhere (including a writer holding the lock forever), a "
+                "reader run alone finishes within a bound on its own steps; a retry implies a newer sequence message; try_update "
+                "returns false in one step when the lock is held; get_base_time_unlocked is snapshot."),
+    level_note=_ABT_TRUST + " Boundedness is in the model's steps (atomic operations of the thread itself); OS scheduling fairness is outside any model.",
+    trusted_base=["the release/acquire view machine as a rendering of the Rust memory model for the orderings used (DESIGN.md section 8)",
+                  "hook H3 (verif_shim) reports every access of atomic_base_time.rs faithfully"],
+    assumptions=["sequence counter does not wrap (fewer than 2^64 accepted updates)", "64-bit usize"],
+)
